@@ -176,8 +176,13 @@ def one_item(ctx, run):
            'remote': remote, 'faulted': 0, 'raised': 0, 'returned_true': 0, 'N': 0, 'violations': [],
            'fault_counts': collections.Counter(), 'probes': collections.Counter(), 'keys': set(), 'simtime': 0.0}
 
+    n_exec = [0]
+
     def chooser():
-        return core.make_chooser(policy, core.stream(seed, run, 'schedule'), est_steps=200)
+        # every execution of this item gets its own schedule stream: the fault plans are enumerated,
+        # the completion orders are sampled afresh each time
+        n_exec[0] += 1
+        return core.make_chooser(policy, core.stream(seed, run, f'schedule:{n_exec[0]}'), est_steps=200)
 
     # ---- fault-free run: N and clause (c)
     base = execute(data, opener, warm, target, follow, {}, chooser())
@@ -201,6 +206,18 @@ def one_item(ctx, run):
         return _fin(rec)
     if base['open'][0] == 'exc':
         return _fin(rec)
+    # ---- clause (c): more completion orders of the same fault-free call when it fans out
+    if pools and max(p.max_inflight for p in pools) >= 2:
+        for extra_policy in ('random', 'ioslow', 'pct2'):
+            n_exec[0] += 1
+            ch = core.make_chooser(extra_policy, core.stream(seed, run, f'schedule:{n_exec[0]}'), est_steps=200)
+            res = execute(data, opener, warm, target, follow, {}, ch)
+            rec['simtime'] += res['sched'].clock
+            rec['probes']['extra_fault_free_completion_orders'] += 1
+            where, what = judge(res, truth, kind, target, follow, faulted=False)
+            if where:
+                rec['violations'].append(_viol(e, opener, kind, target, warm, follow, {}, res, where, what, 'none', m))
+                return _fin(rec)
 
     # ---- single faults, enumerated
     fr = core.stream(seed, run, 'faults')
